@@ -26,6 +26,11 @@ def main(argv=None) -> int:
     seed = int(os.environ.get("VERIF_SEED") or 0)
     pid = a.pid.upper()
     os.environ.setdefault("URLLIB3_VERIF", "1")
+    import urllib3
+    want = os.environ.get("VERIF_REPO_SRC") or "/repo/src"
+    if not os.path.realpath(urllib3.__file__).startswith(os.path.realpath(want) + os.sep):
+        print(f"MACHINERY-FAILURE property={pid}: urllib3 imported from {urllib3.__file__}, expected under {want}", file=sys.stderr)
+        return 2
     try:
         mod = importlib.import_module("vh." + pid.lower())
     except ModuleNotFoundError:
@@ -44,7 +49,8 @@ def main(argv=None) -> int:
         traceback.print_exc()
         print(f"MACHINERY-FAILURE property={pid}: unexpected exception in harness", file=sys.stderr)
         return 2
-    doc = rep.write(dry=bool(a.replay))
+    # self-tests against scratch mutants (VERIF_REPO_SRC) never overwrite the evidence of /repo
+    doc = rep.write(dry=bool(a.replay) or bool(os.environ.get("VERIF_REPO_SRC")))
     seen = set()
     for fid, what in rep.known:
         if fid not in seen:
